@@ -152,3 +152,20 @@ Proof. exact odd_number_of_flipped_bits_process_never_ok. Qed.
 
 Print Assumptions C02_odd_number_of_flipped_bits_never_accepted.
 Print Assumptions C02_odd_number_of_flipped_bits_process_inert.
+
+(* ---------- "... nor any later output", for whole histories (proofs/Twin.v) ----------
+   bad_pec_process o: o is process_packet on a byte string whose last byte is not the PEC of the rest.  run_keep is
+   the history's list of observations (each with both get_eid() values) with those operations' own observations
+   removed.  For every well-formed history it equals the list of observations of the history WITHOUT those operations:
+   a packet with a wrong PEC changes no later result, no later buffer, no later EID — nothing.  This is the statement
+   the harness checks against the code with its twin context. *)
+Require Import Twin.
+Theorem C02_bad_pec_changes_no_later_output : forall ovf ops c, Forall wf_op ops ->
+  run_keep ovf c ops = run ovf c (filter (fun o => negb (bad_pec_process o)) ops).
+Proof. exact twin_history. Qed.
+Theorem C02_bad_pec_changes_no_later_state : forall ovf ops c, Forall wf_op ops ->
+  run_ctx ovf c ops = run_ctx ovf c (filter (fun o => negb (bad_pec_process o)) ops).
+Proof. exact twin_final_ctx. Qed.
+
+Print Assumptions C02_bad_pec_changes_no_later_output.
+Print Assumptions C02_bad_pec_changes_no_later_state.
